@@ -5,6 +5,7 @@ import (
 	"context"
 	"errors"
 	"fmt"
+	"io"
 	"os"
 	"path/filepath"
 	"runtime"
@@ -191,18 +192,18 @@ func (env *Env) Run(c *Case) *Result {
 	}
 
 	rd := &faultReader{doc: c.Doc, failAt: c.Faults.ReaderFailAt, mode: c.Faults.ReaderMode, chunk: c.Sched.ReadChunk,
-		yield: c.Sched.ReaderYield, cancelAt: -1}
+		yield: c.Sched.ReaderYield, cancelAt: -1, errv: FaultErr(ErrReader, c.Faults.ErrKind)}
 	if c.Cancel.Kind == "atOffset" {
 		rd.cancelAt = c.Cancel.K
 		rd.cancel = cancel
 	}
 	wr := &recWriter{failAt: c.Faults.WriterFailAt, short: c.Faults.WriterShort, once: c.Faults.WriterOnce,
-		yieldUs: c.Sched.WriterYieldUs, cancelAt: -1}
+		yieldUs: c.Sched.WriterYieldUs, cancelAt: -1, errv: FaultErr(ErrWriter, c.Faults.ErrKind)}
 	if c.Cancel.Kind == "atWrite" {
 		wr.cancelAt = c.Cancel.K
 		wr.cancel = cancel
 	}
-	colorBuf := &recWriter{failAt: c.Faults.WriterFailAt, short: c.Faults.WriterShort, once: c.Faults.WriterOnce, cancelAt: -1}
+	colorBuf := &recWriter{failAt: c.Faults.WriterFailAt, short: c.Faults.WriterShort, once: c.Faults.WriterOnce, cancelAt: -1, errv: FaultErr(ErrWriter, c.Faults.ErrKind)}
 	oldColor := color.Output
 	color.Output = colorBuf
 	defer func() { color.Output = oldColor }()
@@ -269,12 +270,16 @@ func (env *Env) Run(c *Case) *Result {
 	call := func() (err error) {
 		opts := c.Opts.Options(ctx, targetOpt)
 		var node *gtree.Node
+		var nodes []*gtree.Node
 		if c.Entry != "md" {
 			if c.Root != nil {
-				nodes := BuildRoot(*c.Root, c.Prog)
+				nodes = BuildRoot(*c.Root, c.Prog)
 				node = nodes[0]
 				if c.UseSub > 0 && c.UseSub < len(nodes) {
 					node = nodes[c.UseSub]
+				}
+				for _, po := range c.PreOps {
+					runPreOp(po, nodes[0], base)
 				}
 			}
 		}
@@ -307,6 +312,13 @@ func (env *Env) Run(c *Case) *Result {
 			seq := gtree.WalkIterFromRoot(node, opts...)
 			if alias {
 				seq = gtree.WalkIterProgrammably(node, opts...)
+			}
+			for _, s := range c.LateProg { // the tree grows between creating the iterator and ranging over it
+				p := s.P
+				if p < 0 || p >= len(nodes) {
+					p = 0
+				}
+				nodes = append(nodes, nodes[p].Add(s.N))
 			}
 			i := 0
 			for wn, e := range seq {
@@ -360,6 +372,9 @@ func (env *Env) Run(c *Case) *Result {
 		return call()
 	}()
 	res.ElapsedUs = time.Since(start).Microseconds()
+	rd.mu.Lock()
+	rd.returned = true
+	rd.mu.Unlock()
 	res.CtxCancelled = cancelled.Load() || c.Cancel.Kind == "deadline"
 
 	res.Err = ErrInfo{Nil: err == nil}
@@ -392,6 +407,7 @@ func (env *Env) Run(c *Case) *Result {
 	colorBuf.mu.Unlock()
 	rd.mu.Lock()
 	res.ReadBytes = rd.read
+	res.LateReadBytes = rd.late
 	rd.mu.Unlock()
 	vmu.Lock()
 	res.Visits = visits
@@ -405,6 +421,46 @@ func (env *Env) Run(c *Case) *Result {
 	}
 	reachedMu.Unlock()
 	return res
+}
+
+// runPreOp performs an earlier operation on the same node tree; whatever it returns is ignored (a panic is not).
+func runPreOp(op string, root *gtree.Node, jailBase string) {
+	switch op {
+	case "output":
+		gtree.OutputFromRoot(io.Discard, root)
+	case "output-custom":
+		gtree.OutputFromRoot(io.Discard, root, gtree.WithBranchFormatIntermedialNode("+--", ":  "), gtree.WithBranchFormatLastNode("+--", "   "))
+	case "output-massive":
+		gtree.OutputFromRoot(io.Discard, root, gtree.WithMassive(context.Background()))
+	case "json":
+		gtree.OutputFromRoot(io.Discard, root, gtree.WithEncodeJSON())
+	case "walk":
+		gtree.WalkFromRoot(root, func(*gtree.WalkerNode) error { return nil })
+	case "walkiter":
+		for range gtree.WalkIterFromRoot(root) {
+		}
+	case "walkiter-break":
+		for range gtree.WalkIterFromRoot(root) {
+			break
+		}
+	case "dryrun":
+		old := color.Output
+		color.Output = io.Discard
+		gtree.MkdirFromRoot(root, gtree.WithDryRun())
+		color.Output = old
+	case "verify":
+		d := jailBase
+		if d == "" {
+			d = os.TempDir()
+		}
+		gtree.VerifyFromRoot(root, gtree.WithTargetDir(filepath.Join(d, "no-such-dir-for-preop")))
+	case "verify-massive":
+		d := jailBase
+		if d == "" {
+			d = os.TempDir()
+		}
+		gtree.VerifyFromRoot(root, gtree.WithTargetDir(filepath.Join(d, "no-such-dir-for-preop")), gtree.WithMassive(context.Background()))
+	}
 }
 
 func trimStack(b []byte) string {
